@@ -307,9 +307,9 @@ def run_crashenum(work, binpath, tier, seed, env, unit, replay):
             "extra_evaluations": fault_points, "extra_distinct_nontrivial": fault_failed,
             "samples": samples,
             "rule": "fault-point enumeration: generated before-states x operations; every mutating syscall of the operation's thread between two marker syscalls is made to fail "
-                    "(ENOSPC/EIO, EMFILE for open) by strace, one at a time, and the process goes on; afterwards the tokens the running process honours must equal what a fresh "
-                    "process reads from the file, which must be the complete old or new set; an operation that reported success must have taken effect; non-trivial = the "
-                    "operation reported the error",
+                    "(ENOSPC/EIO, EMFILE for open) by strace, one at a time, and the process goes on; afterwards what the running process honours / reads (tokens; the group's "
+                    "definition) must equal what a fresh process reads from the file, which must be the complete old or new state; an operation that reported success must have "
+                    "taken effect; non-trivial = the operation reported the error",
         }
     shutil.rmtree(os.path.join(work, "crash"), ignore_errors=True)
     return res
